@@ -493,8 +493,17 @@ class Interp:
                 return d_
             if e.id in h.module.consts.get('', {}) and isinstance(h.module.consts[''][e.id], (str, bytes, int, tuple, list, frozenset)):
                 v = h.module.consts[''][e.id]
-                if isinstance(v, bytes) and getattr(h, 'symbolic_strings', False):
-                    return v.decode('latin-1')
+                if getattr(h, 'symbolic_strings', False):
+                    # (bytes constants are text of the model, also inside tuples)
+                    def _as_text(x):
+                        if isinstance(x, bytes):
+                            return x.decode('latin-1')
+                        if isinstance(x, tuple):
+                            return tuple(_as_text(y) for y in x)
+                        if isinstance(x, list):
+                            return [_as_text(y) for y in x]
+                        return x
+                    v = _as_text(v)
                 return h.new_list(list(v)) if isinstance(v, list) else v
             if e.id in ('tuple', 'str', 'int', 'list', 'dict', 'bytes', 'set', 'frozenset') or (e.id[:1].isupper() and e.id not in env):
                 return ('class', e.id)
@@ -1525,6 +1534,12 @@ class Interp:
             if isinstance(st.op, ast.Add) and ((isinstance(cur, (str, SStr)) and (d is None or (isinstance(d, int) and not isinstance(d, bool))))
                                                or (isinstance(d, (str, SStr)) and (cur is None or (isinstance(cur, int) and not isinstance(cur, bool))))):
                 raise Raised('TypeError', h.version, st.lineno)        # text + None / text + number
+            if isinstance(st.op, (ast.Add, ast.Sub)) and (isinstance(cur, SInt) or isinstance(d, SInt)) and isinstance(cur, (int, SInt)) and isinstance(d, (int, SInt)) \
+                    and not isinstance(cur, bool) and not isinstance(d, bool):
+                a_ = cur if isinstance(cur, SInt) else SInt(cur)
+                b_ = d if isinstance(d, SInt) else SInt(d)
+                self.assign(st.target, a_ + b_ if isinstance(st.op, ast.Add) else a_ - b_, env, cls)      # symbolic lengths
+                return None
             if not (isinstance(cur, int) and isinstance(d, int) and isinstance(st.op, (ast.Add, ast.Sub))):
                 raise AnalysisError('heap model: augmented assignment %s' % norm(st))
             self.assign(st.target, cur + d if isinstance(st.op, ast.Add) else cur - d, env, cls)
